@@ -218,6 +218,9 @@ impl ObservationMetric<WAttrs, WObs> for WMetric {
             let qb = b.attr().as_ref().map(|x| x.0).unwrap_or(-1.0);
             qb.partial_cmp(&qa).unwrap()
         });
+        // observations with a negative quality are discarded by the optimisation (a class can thereby become empty while
+        // the track still knows it)
+        observations.retain(|o| o.attr().as_ref().map(|x| x.0 >= 0.0).unwrap_or(true));
         observations.truncate(attrs.cap);
         attrs.optimized += 1;
         attrs.seen_metric_state = self.state;
